@@ -138,7 +138,9 @@ def main():
             bad = rng.pick(["`", "@", "#", "$", "\\", "\x01", "\x7f", "'", "\"", "0x", "1u7", "é",
                             # escapes that do not denote a character: surrogates, beyond U+10FFFF, empty, too long, bad hex
                             '"\\u{d800}"', '"\\u{dfff}"', '"\\u{00d900}"', '"\\u{110000}"', '"\\u{}"', '"\\u{1234567}"',
-                            '"\\xg1"', '"\\q"', "'\\u{d800}'", "'ab'", "''", "0b2", "0x1g", "340282366920938463463374607431768211456"])
+                            '"\\xg1"', '"\\q"', "'\\u{d800}'", "'ab'", "''", "0b2", "0x1g", "340282366920938463463374607431768211456",
+                            # a backslash before a character of several bytes (the location of E162 once ended inside it)
+                            '"\\\u20ac"', "'\\\u20ac'", '"a\\\u00e9b"', '"\\\U0001f600"'])
             inputs.append(("invalid-lexeme", "\n".join(lines[:i] + [" " + bad + " "] + lines[i:]).encode(), "lexreject"))
         if rng.chance(1, 3):
             inputs.append(("faulted-program", faultgen.mutate(rng, src).encode("utf-8", "replace"), None))
